@@ -359,7 +359,7 @@ class WsgiApplication(HttpBase):
         if self.doc.wsdl11 is None:
             start_response(HTTP_404,
                                   _gen_http_headers(ctx.transport.resp_headers))
-            return [HTTP_404.encode('ascii')]
+            return _ClosingIterator([HTTP_404.encode('ascii')], ctx.close)
 
         if self._wsdl is None:
             self._wsdl = self.doc.wsdl11.get_interface_document()
@@ -386,7 +386,8 @@ class WsgiApplication(HttpBase):
                 start_response(HTTP_500,
                                   _gen_http_headers(ctx.transport.resp_headers))
 
-                return [HTTP_500.encode('ascii')]
+                return _ClosingIterator([HTTP_500.encode('ascii')],
+                                                                      ctx.close)
 
             finally:
                 self._mtx_build_interface_document.release()
@@ -399,9 +400,7 @@ class WsgiApplication(HttpBase):
 
         retval = ctx.transport.wsdl
 
-        ctx.close()
-
-        return [retval]
+        return _ClosingIterator([retval], ctx.close)
 
     def handle_error(self, p_ctx, others, error, start_response):
         """Serialize errors to an iterable of strings and return them.
